@@ -291,6 +291,37 @@ def parseCall (s : List Char) : Except Err Call :=
   | name :: _ => .ok ⟨String.ofList name, [], [], false⟩
   | [] => .ok ⟨"", [], [], false⟩
 
+/-- `for k in kwparams: kwargs[k] = kwparams[k]` — the keyword overrides of `safe_eval` written
+    over the keywords of the text, in order (dict update: an existing key keeps its position) -/
+def overrideKw (d : Env) : Env → Env
+  | [] => d
+  | (k, v) :: t => overrideKw (dictInsert d k v) t
+
+/-- `safe_eval(text, table, *params, **kwparams)` up to the call: the arguments of the text, the
+    extra positionals appended, the keyword overrides written over the keywords of the text; the
+    resolved object is called when the text had its parenthesis or any argument is present.
+    The arguments are built afresh from the text on every call: nothing a call receives or the
+    caller does with the result is visible to a later call (the specification is stateless). -/
+def parseCallWith (s : List Char) (params : List PyVal) (kw : Env) : Except Err Call :=
+  match parseCall s with
+  | .error e => .error e
+  | .ok c =>
+    let args := c.args ++ params
+    let kwargs := overrideKw c.kwargs kw
+    .ok ⟨c.name, args, kwargs, c.called || !args.isEmpty || !kwargs.isEmpty⟩
+
+/-- one request of a history: a text with its overrides -/
+structure Request where
+  text : List Char
+  params : List PyVal
+  kw : Env
+  deriving DecidableEq, Repr
+
+def answer (r : Request) : Except Err Call := parseCallWith r.text r.params r.kw
+
+/-- a history of requests in one process: every request is answered from its own text -/
+def runSession (rs : List Request) : List (Except Err Call) := rs.map answer
+
 /-- `get_quantizer(str)` for names of registered quantizer classes (other names of the module
     — plain functions such as `hard_sigmoid` — and Keras activations are opaque lookups) -/
 def safeEval (s : List Char) : Except Err Q :=
@@ -321,6 +352,11 @@ inductive Lit where
   | str (dq : Bool) (cs : List Char)
   /-- list of numbers `[a,b,…]` -/
   | list (ns : List NumLit)
+  /-- list of numbers in the form `str(numpy.ndarray)` prints — what `__str__` emits for an
+      array-valued option: `pre` blanks, then every item followed by its number of blanks (at
+      least one between two items), no commas.  Not Python syntax (`wf` is false); it denotes
+      the list of its items. -/
+  | blist (pre : Nat) (ns : List (NumLit × Nat))
   deriving DecidableEq, Repr
 
 def NumLit.toLit : NumLit → Lit
@@ -344,6 +380,19 @@ def NumLit.text : NumLit → List Char
   | .int neg ds => signText neg ++ ds
   | .float neg ip fp ex => signText neg ++ (ip ++ '.' :: (fp ++ expText ex))
 
+def blanks (k : Nat) : List Char := List.replicate k ' '
+
+/-- the items of a blank-separated list, each followed by its blanks -/
+def bbody : List (NumLit × Nat) → List Char
+  | [] => []
+  | (n, g) :: t => n.text ++ (blanks g ++ bbody t)
+
+/-- at least one blank between two items -/
+def gapsOK : List (NumLit × Nat) → Bool
+  | [] => true
+  | [_] => true
+  | (_, g) :: b :: t => decide (1 ≤ g) && gapsOK (b :: t)
+
 def Lit.text : Lit → List Char
   | .none => "None".toList
   | .bool true => "True".toList
@@ -352,6 +401,7 @@ def Lit.text : Lit → List Char
   | .float neg ip fp ex => signText neg ++ (ip ++ '.' :: (fp ++ expText ex))
   | .str dq cs => quoteChar dq :: (cs ++ [quoteChar dq])
   | .list ns => '[' :: (joinComma (ns.map NumLit.text) ++ [']'])
+  | .blist pre ns => '[' :: ((blanks pre ++ bbody ns) ++ [']'])
 
 def signed (neg : Bool) (n : Nat) : Int := if neg then -(n : Int) else (n : Int)
 
@@ -376,16 +426,19 @@ def Lit.val : Lit → PyVal
   | .float neg ip fp ex => .float (floatVal neg ip fp ex)
   | .str _ cs => .str (String.ofList cs)
   | .list ns => .list (ns.map NumLit.num)
+  | .blist _ ns => .list (ns.map fun p => p.1.num)
 
 /-- characters allowed inside a quoted string of the grammar -/
 def strChar (c : Char) : Bool :=
   keyChar c && !(c == '(' || c == '\'' || c == '"' || c == '\\')
 
-/-- readable number literal: nonempty digit strings (leading zeros allowed: `int("08")` is 8) -/
+/-- readable number literal: nonempty digit strings (leading zeros allowed: `int("08")` is 8),
+    possibly empty fraction digits (`2.`) -/
 def NumLit.rd : NumLit → Bool
   | .int _ ds => allDigits ds
   | .float _ ip fp ex =>
-    allDigits ip && allDigits fp &&
+    -- the fraction digits may be empty: `2.` is a Python float literal, and what numpy prints
+    allDigits ip && fp.all isDig &&
       (match ex with
        | Option.none => true
        | some (_, ds) => allDigits ds)
@@ -406,6 +459,7 @@ def Lit.rd : Lit → Bool
   | .float neg ip fp ex => (NumLit.float neg ip fp ex).rd
   | .str _ cs => cs.all strChar
   | .list ns => ns.all NumLit.rd
+  | .blist _ ns => (ns.all fun p => p.1.rd) && gapsOK ns
 
 /-- well-formed literal (Python accepts the text and reads it as `val`): readable, and no
     leading zero in an integer (part) -/
@@ -413,6 +467,7 @@ def Lit.wf : Lit → Bool
   | .int neg ds => (NumLit.int neg ds).wf
   | .float neg ip fp ex => (NumLit.float neg ip fp ex).wf
   | .list ns => ns.all NumLit.wf
+  | .blist _ _ => false
   | l => l.rd
 
 /-- one argument of a call -/
